@@ -304,9 +304,9 @@ def _level(rng, exact, style):
         queues = [_tempo_pkgs(rng, exact, tp)]
         for c in cols:
             r = rng.random()
-            if r < 0.35:
+            if r < 0.5:
                 queues.append([{"m": m, "ch": c + 2, "n": n, "ev": [[i, _note(rng, 0)]]}])
-            elif r < 0.7:
+            elif r < 0.65:
                 n0 = _slots(rng, exact)
                 queues.append([{"m": 0, "ch": c + 2, "n": n0, "ev": [[0, _note(rng, 2)]]},
                                {"m": m, "ch": c + 2, "n": n, "ev": [[i, _note(rng, 3)]]}])
@@ -338,9 +338,9 @@ def _level(rng, exact, style):
 def _case(rng):
     exact = rng.random() < 0.45
     r = rng.random()
-    if r < 0.3:
+    if r < 0.38:
         styles = [rng.choice(["ok_today", "ok_today", "empty"]) for _ in range(3)]
-    elif r < 0.4:
+    elif r < 0.45:
         styles = ["empty"] * 3
     else:
         styles = [rng.choice(["general", "general", "general", "notempo", "latefirst", "tempo0", "ok_today", "empty"])
